@@ -27,6 +27,8 @@ def run(ctx: Ctx) -> None:
     repo = ctx.repo
     handled = mirror.rule_mirror(ctx)
     mirror.rule_guarded_first(ctx)
+    from ..rules import effects
+    effects.rule_consumed_tableau(ctx, [TRS])
     tables.rule_vocab(ctx, "vocab.gates", [(STABF, "inverse_circuit")], "TimeReversedSolver._add_gates_from_str", handled)
     solvers.rule_frontinsert(ctx)
     solvers.rule_result_provenance(ctx, TRS, "TimeReversedSolver.solve", False)
@@ -35,6 +37,9 @@ def run(ctx: Ctx) -> None:
 
 
 KNOCKOUTS = [
+    Knockout("consumed-tableau-no-copy", TRS, sub_once("_, inverse_circuit = sfs.inverse_circuit(stabilizer_tableau.copy())", "_, inverse_circuit = sfs.inverse_circuit(stabilizer_tableau)"),
+             "effect.consumed-tableau", "inverse_circuit"),
+    Knockout("guarded-first-drop-assert", TRS, sub_once("        assert len(possible_generators) > 0\n", ""), "guarded-first", "possible_generators"),
     Knockout("F3-drop-x-mirror", TRS,
              sub_nth("            transform.x_gate(tableau, self.n_photon + emitter_index)\n            self._add_one_qubit_gate(\n                circuit, [ops.SigmaX], self.n_photon + emitter_index\n            )",
                      "            transform.x_gate(tableau, self.n_photon + emitter_index)", 0),
